@@ -619,3 +619,20 @@ Proof.
   unfold gn_run. destruct golist as [out|]; [|reflexivity].
   destruct (gn_packages o out) as [tbl|m]; [|reflexivity]. rewrite gn_file_raw. reflexivity.
 Qed.
+
+Lemma gn_body_entries tbl :
+  gn_body tbl = dict_body (gn_quoted (gn_printed tbl)) /\
+  Permutation (gn_printed tbl) tbl /\
+  StronglySorted (fun a b => str_leb (GoQuote (fst a)) (GoQuote (fst b)) = true) (gn_printed tbl).
+Proof.
+  split; [unfold gn_body; rewrite gn_quoted_sorted_printed; reflexivity|].
+  split; [apply gn_printed_perm | apply gn_printed_sorted].
+Qed.
+
+Lemma gennames_order_refuted :
+  exists o l1 l2 t1 t2, Permutation l1 l2 /\ gn_fold o [] l1 = Ok t1 /\ gn_fold o [] l2 = Ok t2 /\ t1 <> t2.
+Proof.
+  exists gn_o_std, [gn_l_a; gn_l_b], [gn_l_b; gn_l_a], [(S "golang.org/x/net/idna", S "idna")], [(S "golang.org/x/net/idna", S "other")].
+  split; [exact (proj1 gennames_order_matters)|]. split; [exact (proj1 (proj2 gennames_order_matters))|].
+  split; [exact (proj2 (proj2 gennames_order_matters)) | discriminate].
+Qed.
